@@ -2,8 +2,8 @@ package cl
 
 import (
 	"fmt"
-	"os"
 	"math/big"
+	"os"
 	"time"
 
 	sdk "github.com/cosmos/cosmos-sdk/types"
